@@ -28,12 +28,20 @@ Definition wf_cases (W : ast -> Prop) : list (ast * ast) -> Prop :=
 Definition wf_entries (W : ast -> Prop) : list (name * ast) -> Prop :=
   fix go (l : list (name * ast)) : Prop := match l with [] => True | (_, x) :: r => W x /\ go r end.
 
+(* the first binding of every name in a captured context satisfies W *)
+Definition cap_ok (W : value -> Prop) : list (name * value) -> list name -> Prop :=
+  fix go (c : list (name * value)) (seen : list name) : Prop :=
+    match c with
+    | [] => True
+    | e :: r => (mem_name (fst e) seen = true \/ W (snd e)) /\ go r (fst e :: seen)
+    end.
+
 (* every name that is used resolves (slot or captured value); a let does not redeclare a name of
    the current frame (Generate-time error, excluded by the property); the OuterIdents of a closure
    literal resolve where the literal stands, do not contain the closure's own name, and together
    with the parameters (and the own name when Recursive is set) cover what the body uses;
-   constants are first-order values or (folded by the optimizer) closures that capture nothing,
-   do not call themselves and whose body is well-formed under the parameters alone *)
+   constants are first-order values or closures (folded by the optimizer from a literal, or computed
+   at Generate time) whose body is well-formed under the parameters and the captured names *)
 Fixpoint wf (am : list (option name)) (cm : list name) (a : ast) {struct a} : Prop :=
   match a with
   | AConst v => cwf v
@@ -61,7 +69,14 @@ with cwf (v : value) {struct v} : Prop :=
   | VList l => (fix go (l : list value) : Prop := match l with [] => True | x :: r => cwf x /\ go r end) l
   | VMap m => (fix go (m : list (str * value)) : Prop :=
                  match m with [] => True | e :: r => cwf (snd e) /\ go r end) m
-  | VClo ps b cap self => cap = [] /\ self = [] /\ wf (map Some ps) [] b
+  | VClo ps b cap self =>
+      (* a closure constant: folded from a literal (nothing captured) or computed at Generate time
+         (values captured by name, possibly its own name): the first binding of every captured name
+         is a well-formed constant, the own name is not among the captured names, and the body is
+         well-formed under the parameters and the captured names *)
+      cap_ok cwf cap [] /\
+      (self = [] \/ mem_name self (map fst cap) = false) /\
+      wf (map Some ps) (clo_cm cap self) b
   | _ => True
   end.
 
